@@ -116,6 +116,18 @@ def check_case(case, res=None):
     tables, ordered, feats = case["tables"], case["ordered"], case["features"]
     fails = []
     ref = {}
+    if isinstance(case["sql"], str) and not case.get("dialect_only") and not case.get("strict"):
+        # precondition of the oracle: on the IDENTICAL text of the common fragment the two reference engines return the same
+        # multiset of rows. Where they do not (SQLite 3.40 mishandles a constant-false ON conjunct next to RIGHT / FULL JOIN),
+        # no transpilation is involved and there is nothing to judge: out of domain, counted
+        try:
+            a, b = _run("sqlite", case["sql"], tables), _run("duckdb", case["sql"], tables)
+            if not engines.same_rows(a[1], b[1], False):
+                if res is not None:
+                    res.out_of_domain["engines-disagree-on-identical-text"] += 1
+                return []
+        except engines.EngineError:
+            pass
     for src, dst in case.get("pairs") or PAIRS:
         if case.get("dialect_only") and src != case["dialect_only"]:
             continue
